@@ -1,7 +1,8 @@
 (* C04 - Self tail calls use constant stack and do not change meaning.       *)
-(* Statements only; the proofs are in Proofs/TailCalls.v and Proofs/EvalRel.v. *)
+(* Statements only; the proofs are in Proofs/TailCalls.v, Proofs/EvalRel.v,     *)
+(* Proofs/Hidden.v and Proofs/Tramp.v.                                          *)
 From TL Require Import Base.Base Model.Reader Model.Printer Model.Store Model.Eval Model.Init.
-From TL Require Import Proofs.EvalRel Proofs.TailCalls Proofs.Calls.
+From TL Require Import Proofs.EvalRel Proofs.TailCalls Proofs.Calls Proofs.Hidden Proofs.Tramp.
 Local Open Scope list_scope.
 
 (* mark_tail_calls rewrites EXACTLY the self-calls in tail position (the last *)
@@ -51,6 +52,56 @@ Theorem C04_trampoline_balanced : forall F f ps body r s r' s',
   run F f (TTramp ps body r) s = (r', s') -> r' <> Fuel -> Inv s s' /\ np r'.
 Proof. exact trampoline_balanced. Qed.
 
+(* THE SIMULATION.  [nested] (Proofs/Tramp.v) is ordinary recursion on the      *)
+(* marker: the callee's activation - bind the parameters to the marker's values, *)
+(* run the body, and if that yields a marker again recurse - runs INSIDE the      *)
+(* caller's activation, whose parameter bindings stay on the binding stacks until *)
+(* the callee has returned.  For every parameter list, body, starting marker or   *)
+(* value, state, number k of nested activations and outcome (value, error, host   *)
+(* failure - anything but fuel exhaustion): the interpreter's trampoline task     *)
+(* TTramp, which pops each frame before the next one is pushed, has the same      *)
+(* outcome and leaves the same state (every component equal, every binding stack  *)
+(* equal entry by entry).  Side conditions: the parameters are bindable symbols   *)
+(* (a call cannot succeed otherwise); the run gives no parameter symbol a global  *)
+(* value (defun/defconst-style set_global) or macro definition while it is a      *)
+(* parameter [quietP]; a parameter symbol unbound outside the call carries no     *)
+(* global marker [cleanP] - without these the two really differ (see DESIGN.md).  *)
+Theorem C04_trampoline_is_recursion : forall F f ps body pl,
+  parse_params ps = Ok pl -> Forall bindable (map p_sym pl) ->
+  forall k r0 s r s1',
+  nested F f ps body k r0 s = (r, s1') -> r <> Fuel ->
+  quietP pl s s1' -> cleanP pl s ->
+  exists s2', run F (f + k) (TTramp ps body r0) s = (r, s2') /\ equiv s1' s2'.
+Proof. exact nested_is_tramp. Qed.
+
+(* the unrolled loop of the simulation is the interpreter's task *)
+Theorem C04_loop_is_interpreter_task : forall F f ps body k r0 s r s',
+  tramp F f ps body k r0 s = (r, s') -> r <> Fuel ->
+  run F (f + k) (TTramp ps body r0) s = (r, s').
+Proof. exact tramp_run. Qed.
+
+(* [equiv] (equal up to the representation of the store) is invisible to every  *)
+(* later evaluation: same outcome, equivalent final states                        *)
+Theorem C04_equivalent_states_indistinguishable : forall F g t s1 s2 r s1',
+  equiv s1 s2 -> run F g t s1 = (r, s1') -> r <> Fuel ->
+  exists s2', run F g t s2 = (r, s2') /\ equiv s1' s2'.
+Proof. exact equiv_indistinguishable. Qed.
+
+(* the engine of the simulation: binding-stack entries buried below the top of a *)
+(* stack (hk, at height hf from the bottom) are invisible to evaluation - any     *)
+(* task, any fuel: same outcome, the visible entries related, the buried ones     *)
+(* untouched - provided no tracked symbol whose buried entries reach the bottom   *)
+(* gets its global slot written [quiet]                                           *)
+Theorem C04_buried_entries_invisible : forall hk hf (trk : key -> Prop),
+  (forall k, hk k <> [] -> trk k) ->
+  forall F f t s1 s2 r s1',
+  SR hk hf s1 s2 -> wf hf trk s2 -> run F f t s1 = (r, s1') -> r <> Fuel -> quiet hf trk s1 s1' ->
+  exists s2', run F f t s2 = (r, s2') /\ SR hk hf s1' s2' /\ wf hf trk s2' /\ dmono s2 s2'.
+Proof. intros hk hf trk Ht F f t. exact (proj2 (run_R2 hk hf trk Ht F f t)). Qed.
+
+Print Assumptions C04_trampoline_is_recursion. Print Assumptions C04_loop_is_interpreter_task.
+Print Assumptions C04_equivalent_states_indistinguishable. Print Assumptions C04_buried_entries_invisible.
+
 Print Assumptions C04_only_tail_self_calls_rewritten. Print Assumptions C04_marker_evaluates_arguments.
 Print Assumptions C04_call_enters_trampoline. Print Assumptions C04_trampoline_iteration.
 Print Assumptions C04_trampoline_exit. Print Assumptions C04_values_not_reevaluated.
@@ -79,5 +130,35 @@ Example C04_same_as_recursion :
   = ev0 2500 "(defun f (n &optional acc &rest r) (cond ((< n 1) (list acc r)) (t (funcall 'f (- n 1) (+ (if acc acc 0) n) n r)))) (list (f 200) (funcall 'f 3 1) (mapcar 'f '(1 2)))".
 Proof. vm_compute. reflexivity. Qed.
 
+(* non-vacuity of the simulation: a stored definition, five nested activations, *)
+(* every hypothesis of C04_trampoline_is_recursion holds                           *)
+Definition st1 : st :=
+  snd (eval_string F0 40 (s2t "(defun f (n acc) (if (< n 1) acc (f (- n 1) (+ acc n))))") (init_state [] None)).
+Definition lam1 : sx * sx :=
+  match fst (eval_string F0 40 (s2t "f") st1) with Ok (Lam ps body) => (ps, body) | _ => (Nil, Nil) end.
+Definition pl1 : list param := match parse_params (fst lam1) with Ok pl => pl | _ => [] end.
+Definition start1 : sx := Cons Bounce (of_list [Int 4; Int 0] Nil).
+Definition out1 := nested F0 60 (fst lam1) (snd lam1) 6 start1 st1.
+Example C04_simulation_applies :
+  parse_params (fst lam1) = Ok pl1 /\ Forall bindable (map p_sym pl1) /\
+  List.length pl1 = 2%nat /\ fst out1 = Ok (Int 10) /\
+  quietP pl1 st1 (snd out1) /\ cleanP pl1 st1 /\
+  fst (run F0 66 (TTramp (fst lam1) (snd lam1) start1) st1) = Ok (Int 10).
+Proof.
+  split; [vm_compute; reflexivity|].
+  split; [repeat constructor; eexists; split; vm_compute; reflexivity|].
+  split; [vm_compute; reflexivity|]. split; [vm_compute; reflexivity|].
+  split; [|split].
+  - intros key Hin. vm_compute in Hin. destruct Hin as [<-|[<-|[]]]; vm_compute; split; reflexivity.
+  - intros key Hin. vm_compute in Hin. destruct Hin as [<-|[<-|[]]]; vm_compute; intros; reflexivity.
+  - vm_compute. reflexivity.
+Qed.
+
 Check C04_only_tail_self_calls_rewritten : forall fuel name body body',
   mark_tail fuel name body = Ok body' -> mt_body name body body'.
+Check C04_trampoline_is_recursion : forall F f ps body pl,
+  parse_params ps = Ok pl -> Forall bindable (map p_sym pl) ->
+  forall k r0 s r s1',
+  nested F f ps body k r0 s = (r, s1') -> r <> Fuel ->
+  quietP pl s s1' -> cleanP pl s ->
+  exists s2', run F (f + k) (TTramp ps body r0) s = (r, s2') /\ equiv s1' s2'.
